@@ -191,6 +191,14 @@ func loadWorld(pkgNames []string) (*World, error) {
 		if pc != nil {
 			for k := range pc.Funcs {
 				if w.byName[shortPkg(path)+"."+k] == nil {
+					// a contract on a method of an interface declared in the package
+					if dot := strings.Index(k, "."); dot > 0 {
+						if tn, ok := p.Types.Scope().Lookup(k[:dot]).(*types.TypeName); ok {
+							if _, isIface := tn.Type().Underlying().(*types.Interface); isIface {
+								continue
+							}
+						}
+					}
 					return nil, fmt.Errorf("%s: contract for %s: no such function in package %s", pc.File, k, path)
 				}
 			}
@@ -221,12 +229,16 @@ func (w *World) lookupFunc(f *types.Func) *FuncInfo {
 	return w.funcs[f]
 }
 
-// libContract finds an assumed contract for a library function, e.g. "slices.Reverse".
+// libContract finds an assumed contract for a library function, e.g. "slices.Reverse", or the contract of an
+// interface method declared in a package under contract.
 func (w *World) libContract(f *types.Func) (*FuncContract, *PkgContracts) {
 	if f == nil || f.Pkg() == nil {
 		return nil, nil
 	}
 	pc := w.libc[f.Pkg().Path()]
+	if pc == nil {
+		pc = w.contracts[f.Pkg().Path()]
+	}
 	if pc == nil {
 		return nil, nil
 	}
